@@ -1116,10 +1116,19 @@ def check_counter(ctx, tu):
     finc, fdec, fuse = fns[INC][0], fns[DEC][0], fns[USE][0]
     # the counter: the member of RefCountedObject that refInc refers to
     refd = set()
-    for b, i, x in tu.cfg(finc).stmts():
-        sd = tu.sd(x)
-        if x.get('kind') == 'MemberExpr' and sd.get('rec') == RCO and sd.get('k') == 'member' and 'fi' in sd:
-            refd.add(sd['d'])
+
+    def fields_of(fn, depth=0):
+        for b, i, x in tu.cfg(fn).stmts():
+            sd = tu.sd(x)
+            if x.get('kind') == 'MemberExpr' and sd.get('rec') == RCO and sd.get('k') == 'member' and 'fi' in sd:
+                refd.add(sd['d'])
+            elif x.get('kind') == 'CXXMemberCallExpr' and depth < 3:      # a private helper shared by refInc / refDec
+                cf = tu.callee_fn(x)
+                s_, o_, a_ = tu.call_parts(x)
+                if cf is not None and cf.get('recid') == fn.get('recid') and cf['id'] != fn['id'] and tu.cfg(cf) is not None and \
+                        (o_ is None or tu.is_this(o_)):
+                    fields_of(cf, depth + 1)
+    fields_of(finc)
     cands = [fd for fd in rec['fields'] if fd['id'] in refd]
     if len(cands) != 1:
         ctx.undecided(R2, 'RefCountedObject', 'refInc does not refer to exactly one data member of RefCountedObject (%d): '
@@ -1356,7 +1365,14 @@ def expand_paths(tu, f, counter_ids, looped=False, depth=0, followed=None):
                             if followed is not None:
                                 followed.add(cf['id'])
                             sub = []
+                            s2_, o2_, cargs = tu.call_parts(x)
+                            consts = {}
+                            for p_, a_ in zip(cf.get('params', []), cargs):
+                                cv_ = tu.sd(tu.strip(a_)).get('cv') or tu.sd(a_).get('cv')
+                                if cv_ is not None:
+                                    consts[p_['id']] = cv_
                             for tr in expand_paths(tu, cf, counter_ids, False, depth + 1, followed):
+                                tr = [('K', consts)] + list(tr)
                                 rets = [it[1] for it in tr if it[0] == 'S' and it[1].get('kind') == 'ReturnStmt']
                                 rexpr = tu.kids(rets[-1])[0] if rets and tu.kids(rets[-1]) else None
                                 sub.append(list(tr) + [('B', x['id'], rexpr)])
@@ -1415,6 +1431,7 @@ def check_rmw_fn(ctx, tu, f, counter_ids, sign, file, followed=None):
         feas = set(range(0, 4))
         cond_seen_before_rmw = False
         binds = []        # (call node id of a followed helper, its return expression on this path)
+        kconsts = {}      # integral parameters of followed helpers bound to constant arguments (adjust(-1))
         for item in path:
             if item[0] == 'B':
                 binds.append((item[1], item[2]))
@@ -1422,9 +1439,19 @@ def check_rmw_fn(ctx, tu, f, counter_ids, sign, file, followed=None):
             if item[0] == 'U':
                 undec.append(item[1])
                 continue
+            if item[0] == 'K':
+                kconsts.update(item[1])
+                continue
             if item[0] == 'S':
                 x = item[1]
                 a = atomic_call(tu, x, counter_ids)
+                if a and a[0] == 'other' and a[1] in ('fetch_add', 'fetch_sub', 'operator+=', 'operator-='):
+                    # the amount is a parameter of a followed helper that was called with a constant
+                    s3_, o3_, a3_ = tu.call_parts(x)
+                    pid_ = tu.ref_decl(a3_[0]) if a3_ else None
+                    if pid_ in kconsts:
+                        sign_ = -1 if a[1] in ('fetch_sub', 'operator-=') else 1
+                        a = ('rmw', sign_ * int(kconsts[pid_]), 'old' if a[1].startswith('fetch_') else 'new', call_mo(tu, x, 1))
                 fm = fence_mo(tu, x)
                 if not a and x.get('kind') in CALLS + ('CXXConstructExpr',):
                     s_, o_, args_ = tu.call_parts(x)
